@@ -3,6 +3,9 @@ package main
 import (
 	"bytes"
 	"crypto"
+	"crypto/ecdsa"
+	"crypto/ed25519"
+	"crypto/elliptic"
 	"crypto/rand"
 	"crypto/rsa"
 	"crypto/sha256"
@@ -77,7 +80,9 @@ type certShape struct {
 	issuer  pkix.Name
 	serial  *big.Int
 	desc    string
-	subject *pkix.Name // non-nil: issued by a CA named `issuer` (issuer and subject differ); nil: self-signed
+	subject *pkix.Name              // non-nil: issued by a CA named `issuer` (issuer and subject differ); nil: self-signed
+	sigAlg  x509.SignatureAlgorithm // how the certificate itself is signed (0: SHA256WithRSA)
+	rawName []byte                  // non-nil: this DER RDNSequence is the name (encodings Go's pkix.Name would not produce)
 }
 
 var caVerifDir string // where the pool keys live (set by poolKeyDir); the CA key is pool key 2
@@ -89,8 +94,8 @@ func certShapes(_ *Ctx) []certShape {
 		b20[i] = 0xff
 	}
 	b20[0] = 0x7f
-	hi := new(big.Int).SetBytes([]byte{0x80, 0, 0, 1})         // high bit set: needs a leading zero octet
-	lz := new(big.Int).SetBytes([]byte{0x00, 0x7f, 0xff})       // leading zero in the source bytes
+	hi := new(big.Int).SetBytes([]byte{0x80, 0, 0, 1})    // high bit set: needs a leading zero octet
+	lz := new(big.Int).SetBytes([]byte{0x00, 0x7f, 0xff}) // leading zero in the source bytes
 	return []certShape{
 		{issuer: pkix.Name{CommonName: "a"}, serial: big.NewInt(1), desc: "short/1"},
 		{issuer: pkix.Name{CommonName: "Platform Key", Organization: []string{long}, Country: []string{"NO"}}, serial: big.NewInt(127), desc: "long/127"},
@@ -104,7 +109,83 @@ func certShapes(_ *Ctx) []certShape {
 		// issued by a CA: issuer and subject are different names
 		{issuer: pkix.Name{CommonName: "Test Root CA", Organization: []string{"Verification"}}, serial: big.NewInt(4097), desc: "ca-issued/4097", subject: &pkix.Name{CommonName: "leaf signer"}},
 		{issuer: pkix.Name{CommonName: "R"}, serial: new(big.Int).SetBytes([]byte{0xC3, 0x50, 0x00}), desc: "ca-issued/highbit", subject: &pkix.Name{CommonName: "A considerably longer subject than issuer", Country: []string{"SE"}}},
+		// the certificate itself carries a SHA-384 / SHA-512 signature (nothing to do with the SignerInfo's algorithms)
+		{issuer: pkix.Name{CommonName: "sha384 cert"}, serial: big.NewInt(384), desc: "self/sha384WithRSA", sigAlg: x509.SHA384WithRSA},
+		{issuer: pkix.Name{CommonName: "Root 512"}, serial: big.NewInt(512), desc: "ca-issued/sha512WithRSA", sigAlg: x509.SHA512WithRSA, subject: &pkix.Name{CommonName: "leaf 512"}},
+		// names as other tools encode them: UTF8String values + emailAddress (IA5String); a multi-valued RDN; CN before C
+		{serial: big.NewInt(7001), desc: "rawname/utf8+email", rawName: rdnSeq([][]atv{{{oidCN, 0x0c, "openssl style name"}}, {{oidEmail, 0x16, "a@example.org"}}})},
+		{serial: big.NewInt(7002), desc: "rawname/multivalued-rdn", rawName: rdnSeq([][]atv{{{oidO, 0x13, "org"}, {oidCN, 0x13, "multi"}}})},
+		{serial: big.NewInt(7003), desc: "rawname/cn-first", rawName: rdnSeq([][]atv{{{oidCN, 0x0c, "cn first"}}, {{oidC, 0x13, "NO"}}, {{oidDC, 0x16, "example"}}})},
 	}
+}
+
+// ---- hand-encoded distinguished names ----
+type atv struct {
+	oid   []byte
+	tag   byte // string type: 0x0c UTF8String, 0x13 PrintableString, 0x16 IA5String
+	value string
+}
+
+var (
+	oidCN    = []byte{0x55, 0x04, 0x03}
+	oidC     = []byte{0x55, 0x04, 0x06}
+	oidO     = []byte{0x55, 0x04, 0x0a}
+	oidEmail = []byte{0x2a, 0x86, 0x48, 0x86, 0xf7, 0x0d, 0x01, 0x09, 0x01}
+	oidDC    = []byte{0x09, 0x92, 0x26, 0x89, 0x93, 0xf2, 0x2c, 0x64, 0x01, 0x19}
+)
+
+func tlv(tag byte, body []byte) []byte {
+	return append(append([]byte{tag}, derLen(len(body))...), body...)
+}
+
+// rdnSeq encodes RDNSequence ::= SEQUENCE OF SET OF SEQUENCE { type OID, value string }; the
+// attribute-value pairs of one RDN are given in DER SET OF order by the caller
+func rdnSeq(rdns [][]atv) []byte {
+	var seq []byte
+	for _, rdn := range rdns {
+		var set []byte
+		for _, a := range rdn {
+			set = append(set, tlv(0x30, append(tlv(0x06, a.oid), tlv(a.tag, []byte(a.value))...))...)
+		}
+		seq = append(seq, tlv(0x31, set)...)
+	}
+	return tlv(0x30, seq)
+}
+
+// nonRSATwin: a certificate with the issuer and serial of `cert` whose key is not an RSA key
+func nonRSATwin(cert *x509.Certificate, kind string) *x509.Certificate {
+	certMu.Lock()
+	defer certMu.Unlock()
+	ck := fmt.Sprintf("twin-%s/%x/%s", kind, cert.RawIssuer, cert.SerialNumber)
+	if c, ok := certCache[ck]; ok {
+		return c
+	}
+	tmpl := &x509.Certificate{SerialNumber: cert.SerialNumber, RawSubject: cert.RawIssuer, NotBefore: time.Unix(1700000000, 0), NotAfter: time.Unix(2000000000, 0),
+		KeyUsage: x509.KeyUsageDigitalSignature, BasicConstraintsValid: true}
+	var pub crypto.PublicKey
+	var signer crypto.Signer
+	seed := sha256.Sum256([]byte("verif non-RSA twin " + kind))
+	switch kind {
+	case "ed25519":
+		k := ed25519.NewKeyFromSeed(seed[:])
+		pub, signer = k.Public(), k
+	default:
+		k, err := ecdsa.GenerateKey(elliptic.P256(), rand.Reader)
+		if err != nil {
+			panic(err)
+		}
+		pub, signer = &k.PublicKey, k
+	}
+	der, err := x509.CreateCertificate(rand.Reader, tmpl, tmpl, pub, signer)
+	if err != nil {
+		panic(err)
+	}
+	c, err := x509.ParseCertificate(der)
+	if err != nil {
+		panic(err)
+	}
+	certCache[ck] = c
+	return c
 }
 
 var certMu sync.Mutex
@@ -118,7 +199,7 @@ func makeRSACert(key *rsa.PrivateKey, sh certShape) *x509.Certificate {
 		return c
 	}
 	tmpl := &x509.Certificate{SerialNumber: sh.serial, Subject: sh.issuer, NotBefore: time.Unix(1700000000, 0), NotAfter: time.Unix(2000000000, 0),
-		KeyUsage: x509.KeyUsageDigitalSignature, BasicConstraintsValid: true}
+		KeyUsage: x509.KeyUsageDigitalSignature, BasicConstraintsValid: true, SignatureAlgorithm: sh.sigAlg, RawSubject: sh.rawName}
 	parent, signer := tmpl, key
 	if sh.subject != nil {
 		keyMu.Lock()
@@ -178,8 +259,11 @@ func loadRepoKeyCert(c *Ctx, keyPath, certPath string) *keyCert {
 // ---- an independent verifier on encoding/asn1 + crypto/rsa (RFC 2315 section 9 / RFC 5652 section 5) ----
 
 type stdSignerInfo struct {
-	Version   int
-	IAS       struct{ Issuer asn1.RawValue; Serial *big.Int }
+	Version int
+	IAS     struct {
+		Issuer asn1.RawValue
+		Serial *big.Int
+	}
 	DigestAlg asn1.RawValue
 	Attrs     asn1.RawValue `asn1:"optional,tag:0"`
 	SigAlg    asn1.RawValue
@@ -194,8 +278,8 @@ type stdSignedData struct {
 		Type    asn1.ObjectIdentifier
 		Content asn1.RawValue `asn1:"optional,explicit,tag:0"`
 	}
-	Certs   asn1.RawValue `asn1:"optional,tag:0"`
-	CRLs    asn1.RawValue `asn1:"optional,tag:1"`
+	Certs   asn1.RawValue   `asn1:"optional,tag:0"`
+	CRLs    asn1.RawValue   `asn1:"optional,tag:1"`
 	Signers []stdSignerInfo `asn1:"set"`
 }
 
